@@ -30,13 +30,13 @@ theorem HeadInv_dlv {c : Cfg} (h : HeadInv c) : HeadInv c.dlv :=
 theorem stackAfter_of_none {c : Cfg} (h : c.stackOp = none) : c.stackAfter = (c.A.stack, c.A.nextEid) := by
   simp [Cfg.stackAfter, h]
 
-theorem HeadInv_step {P : Prog} {c : Cfg} (hi : Imm c) (he : EntInv c) : HeadInv (outCfg (step P c)) := by
+theorem HeadInv_step {P : Prog} {c : Cfg} (hi : Imm c) (he : EntInv c) : HeadInv (sOutCfg (step P c)) := by
   rcases hc : c.code with _ | ⟨ins, rest⟩
   · rw [step_nil P c hc]
     constructor <;> simp [hc]
   · have hst := (step_stack P c).1
     rw [Prod.ext_iff] at hst
-    have hs1 : (outCfg (step P c)).A.stack = c.stackAfter.1 := hst.1
+    have hs1 : (sOutCfg (step P c)).A.stack = c.stackAfter.1 := hst.1
     constructor
     · intro top hh
       have := head_imm_after hi hc hh rfl
@@ -115,7 +115,7 @@ theorem schedEvs_cases (c : Cfg) :
       · exact .inl rfl
       · exact .inr (.inr (.inr ⟨_, _, rfl⟩))
 
-theorem RefInv_step {P : Prog} {c : Cfg} (h : RefInv c) : RefInv (outCfg (step P c)) := by
+theorem RefInv_step {P : Prog} {c : Cfg} (h : RefInv c) : RefInv (sOutCfg (step P c)) := by
   have htr := (step_stack P c).2
   constructor
   · intro top hm
